@@ -299,6 +299,7 @@ def main(tier, write_baseline=False):
     if hangs and not refuted:
         run.violation("C11/watchdog/%s" % hangs[0][0], "a call does not return within 8 s on a concrete input (no deductive obligation was refuted: see UNDECIDED lines for loops without a variant)",
                       failing_input={"driver": hangs[0][0], "input": hangs[0][1]})
+    common.apply_controls(run, tier)
     return run.finish(explanation="Termination: a variant per while loop proved loop-locally by E1; finite-iterable / no-growth / recursion-measure rules by the rule engine. "
                       "'time proportional to the size of the input' is NOT decided (a variant gives termination, not complexity). Recursive call sites marked 'assumed' are listed in assumptions, not counted.")
 
